@@ -340,6 +340,9 @@ func c18evaluate(c *Ctx, cs *ClientSim, plan []string, calls []*c18call, forgedT
 				c.Violate("forged-accept", key, "a %s notification reached handler %s; only connections without a valid accept (%d forged, last forged as %q; data ahead of the accept: %v) ever sent data", cb.Kind, rec.Name, forgedConns, lastForgedMode, dataFirstFired)
 			}
 		}
+		if accepts > 0 {
+			c.Probe("client_accepted_a_valid_accept")
+		}
 		if accepts > validAccepts {
 			c.Violate("forged-accept", "accepted/"+lastForgedMode, "handler %s was told %d times that the service accepted the connection; only %d valid accepts were sent (forged: %s)", rec.Name, accepts, validAccepts, lastForgedMode)
 		}
@@ -403,7 +406,7 @@ func c18evaluate(c *Ctx, cs *ClientSim, plan []string, calls []*c18call, forgedT
 
 func init() {
 	Register(&Check{Prop: "C18", Sub: "auth-and-gating", Weight: 1, Real: clientReal, Stub: clientStub,
-		Req:  []string{"connection", "valid_accept", "forged_accept_judged", "call_succeeded", "call_failed"},
+		Req:  []string{"connection", "valid_accept", "client_accepted_a_valid_accept", "forged_accept_judged", "call_succeeded", "call_failed"},
 		Rule: "per connection the service answers the Register with a valid accept, a forged one (long-term key instead of session key, key derived for another hash, signature by another key, signature over altered counts, replay of the previous connection's accept), no accept, or a reject, and streams data after a forged accept; the application issues 2-7 calls (fire-and-forget posts and GetTx) before any accept, between accept and ready, during disconnects and after reconnects; both connection types, connection drops, slow writes; every run is non-trivial.",
 		Run:  runC18})
 }
